@@ -31,6 +31,21 @@ CHECKS = {
    "The independent decoder shares no code with conserve's reader; it is run after every backup, interrupted backup, delete and gc of generated histories and single (options, tree) backups, and the address lengths are compared with the model's file sizes.",
    "Zero-length leftovers of the torn-write interruption are skipped as the documented exception.",
    "DESIGN.md 5 C13"),
+ "C15": ("exploration",
+   "property-based differential/metamorphic test: backup-with-excludes == list-with-excludes == restore-with-excludes == model rule, over generated trees and glob sets built from the tree's own names (proptest)",
+   "Four independently obtained path sets must coincide for every generated (tree, pattern set): the independently decoded index of a backup made with the exclusions, the filtered listing and the filtered restore of a full backup, and the statement's rule evaluated by the harness.",
+   "Matching one glob against one string is delegated to the globset crate; names carry no glob metacharacters.",
+   "DESIGN.md 5 C15"),
+ "C16": ("exploration",
+   "property-based invariant test: generated trees/histories with symlinks aimed at sentinels; invariant = lstat/ctime/inode snapshot of everything outside the destination is unchanged by restore (proptest)",
+   "Symlink targets are constructed to reach sentinel files and directories beside the destination (relative chains, absolute, '..', '/'), destinations are absent/empty/pre-populated, and a second class restores an interrupted version in which a directory was replaced by a symlink. The sandbox outside the destination is snapshotted before and after including ctime and inode numbers, so any chmod/chown/utimes/write through a link is visible.",
+   "Pre-populated destinations contain no symlinks; the check runs as root so a write-through cannot be hidden by a permission error.",
+   "DESIGN.md 5 C16"),
+ "C18": ("exploration",
+   "property-based model comparison: generated tree + edit set; conserve's diff stream and backup change callback compared with a model diff written from the statement (proptest)",
+   "The model diff is computed from the two model trees by the statement's rule; diff output must equal it entry-for-entry in path order with and without unchanged entries, the diff of an unmodified tree must be empty, and the backup callback must classify every file of the new tree and report every removed file.",
+   "Content edits that keep size and mtime are not generated; non-file kinds are exempt on the callback side.",
+   "DESIGN.md 5 C18"),
 }
 
 NOT_BUILT_REASON = "check not built yet in this session (planned, see DESIGN.md section 5); not claimed until its command exists and is silent on the unchanged tree"
